@@ -49,6 +49,13 @@ def fixed_cases(tier):
             spec = {"repr": adm[0], "vis": "pub", "ident": "E", "enum_attrs": [],
                     "variants": [{"ident": "V%d" % i, "disc": str(v)} for i, v in enumerate(vals)]}
             out.append({"spec": spec, "cfg": S.simple_config(E.ALL_FEATURES), "reprs": adm[1:], "perm_seeds": [3], "seed": 0})
+    # a map that fills an 8-bit repr completely, under the 8-bit repr and under wider twins, in every iterator mode
+    for r, vals, twins in (("u8", list(range(256)), ["u16", "i16", "u64"]), ("i8", list(range(-128, 128)), ["i16", "i64", "isize"])):
+        for md in ("next_and_back", "table", None):
+            spec = {"repr": r, "vis": "pub", "ident": "E", "enum_attrs": [],
+                    "variants": [{"ident": "V%d" % i, "disc": str(v)} for i, v in enumerate(vals)]}
+            out.append({"spec": spec, "cfg": S.simple_config(E.ALL_FEATURES, {"iter": md} if md else {}), "reprs": twins,
+                        "perm_seeds": [], "seed": 1})
     return out
 
 
